@@ -42,8 +42,8 @@ static int16_t can_send(CO_IF_FRM *frm) {
     int n = f.dlc > 8 ? 8 : f.dlc;
     memcpy(f.d, frm->Data, (size_t)n);      // bytes beyond DLC are not on the bus (and may be uninitialised)
     s.txInOp++;
-    if (s.sendFail > 0) { s.sendFail--; W->ev(EV_TXFAIL, 0, 0, 0, &f); return -1; }
-    if (s.sendFailAfter >= 0) { if (s.sendFailAfter-- == 0) { W->ev(EV_TXFAIL, 0, 0, 0, &f); return -1; } }
+    if (s.sendFail > 0) { s.sendFail--; W->ev(EV_TXFAIL, 0, 0, 0, &f); return (int16_t)s.sendFailRet; }
+    if (s.sendFailAfter >= 0) { if (s.sendFailAfter-- == 0) { W->ev(EV_TXFAIL, 0, 0, 0, &f); return (int16_t)s.sendFailRet; } }
     W->ev(EV_TX, 0, 0, 0, &f);
     return (int16_t)sizeof(CO_IF_FRM);
 }
